@@ -47,6 +47,14 @@ impl RegistrationToken {
     }
 }
 
+#[cfg(calloop_verif)]
+impl RegistrationToken {
+    /// The raw poller key of this registration (sub id 0)
+    pub fn verif_key(&self) -> usize {
+        usize::from(self.inner)
+    }
+}
+
 pub(crate) struct LoopInner<'l, Data> {
     pub(crate) poll: RefCell<Poll>,
     // The `Option` is used to keep slots of the slab occupied, to prevent id reuse
@@ -327,6 +335,40 @@ impl<'l, Data> LoopHandle<'l, Data> {
     }
 }
 
+#[cfg(calloop_verif)]
+impl<'l, Data> LoopHandle<'l, Data> {
+    /// Sizes of the internal tables, `None` while one of them is mutably borrowed
+    pub fn verif_stats(&self) -> Option<crate::verif::LoopStats> {
+        let sources = self.inner.sources.try_borrow().ok()?;
+        let lifecycle = self
+            .inner
+            .sources_with_additional_lifecycle_events
+            .try_borrow()
+            .ok()?;
+        let poll = self.inner.poll.try_borrow().ok()?;
+        let idles = self.inner.idles.try_borrow().ok()?;
+        let (slots, occupied) = sources.verif_counts();
+        let mut distinct: Vec<usize> = lifecycle.values.iter().map(|t| t.verif_key()).collect();
+        distinct.sort_unstable();
+        distinct.dedup();
+        let timer_heap_len = poll.timers.try_borrow().ok()?.verif_len();
+        Some(crate::verif::LoopStats {
+            slots,
+            occupied,
+            lifecycle_len: lifecycle.values.len(),
+            lifecycle_distinct: distinct.len(),
+            timer_heap_len,
+            idles_len: idles.len(),
+            pending_action: match self.inner.pending_action.get() {
+                PostAction::Continue => 0,
+                PostAction::Reregister => 1,
+                PostAction::Disable => 2,
+                PostAction::Remove => 3,
+            },
+        })
+    }
+}
+
 impl<Data> Debug for WeakLoopHandle<'_, Data> {
     #[cfg_attr(feature = "nightly_coverage", coverage(off))]
     fn fmt(&self, f: &mut std::fmt::Formatter<'_>) -> std::fmt::Result {
@@ -466,7 +508,11 @@ impl<'l, Data> EventLoop<'l, Data> {
         let events = {
             let poll = self.handle.inner.poll.borrow();
             loop {
+                #[cfg(calloop_verif)]
+                crate::verif::yield_point(crate::verif::Site::WaitPre);
                 let result = poll.poll(timeout);
+                #[cfg(calloop_verif)]
+                crate::verif::yield_point(crate::verif::Site::WaitPost);
 
                 match result {
                     Ok(events) => break events,
@@ -666,6 +712,8 @@ impl<'l, Data> EventLoop<'l, Data> {
         let timeout = timeout.into();
         self.signals.stop.store(false, Ordering::Release);
         while !self.signals.stop.load(Ordering::Acquire) {
+            #[cfg(calloop_verif)]
+            crate::verif::yield_point(crate::verif::Site::RunIterPre);
             self.dispatch(timeout, data)?;
             cb(data);
         }
@@ -695,12 +743,16 @@ impl<'l, Data> EventLoop<'l, Data> {
             fn wake(self: Arc<Self>) {
                 // Set the waker.
                 self.0.signal.future_ready.store(true, Ordering::Release);
+                #[cfg(calloop_verif)]
+                crate::verif::yield_point(crate::verif::Site::BoWakeMid);
                 self.0.notifier.notify().ok();
             }
 
             fn wake_by_ref(self: &Arc<Self>) {
                 // Set the waker.
                 self.0.signal.future_ready.store(true, Ordering::Release);
+                #[cfg(calloop_verif)]
+                crate::verif::yield_point(crate::verif::Site::BoWakeMid);
                 self.0.notifier.notify().ok();
             }
         }
@@ -723,8 +775,12 @@ impl<'l, Data> EventLoop<'l, Data> {
         self.signals.future_ready.store(true, Ordering::Release);
 
         while !self.signals.stop.load(Ordering::Acquire) {
+            #[cfg(calloop_verif)]
+            crate::verif::yield_point(crate::verif::Site::RunIterPre);
             // If the future is ready to be polled, poll it.
             if self.signals.future_ready.swap(false, Ordering::AcqRel) {
+                #[cfg(calloop_verif)]
+                crate::verif::yield_point(crate::verif::Site::BoSwapPost);
                 // Poll the future and break the loop if it's ready.
                 if let Poll::Ready(result) = future.as_mut().poll(&mut context) {
                     output = Some(result);
@@ -732,6 +788,8 @@ impl<'l, Data> EventLoop<'l, Data> {
                 }
             }
 
+            #[cfg(calloop_verif)]
+            crate::verif::yield_point(crate::verif::Site::BoPollPost);
             // Otherwise, block on the event loop.
             self.dispatch_events(None, data)?;
             self.dispatch_idles(data);
@@ -836,7 +894,11 @@ impl LoopSignal {
     ///
     /// This is only useful if you are using the `EventLoop::run()` method.
     pub fn stop(&self) {
+        #[cfg(calloop_verif)]
+        crate::verif::yield_point(crate::verif::Site::StopPre);
         self.signal.stop.store(true, Ordering::Release);
+        #[cfg(calloop_verif)]
+        crate::verif::yield_point(crate::verif::Site::StopPost);
     }
 
     /// Wake up the event loop
@@ -846,7 +908,11 @@ impl LoopSignal {
     /// ensures the event loop will terminate quickly if you specified a long
     /// timeout (or no timeout at all) to the `dispatch` or `run` method.
     pub fn wakeup(&self) {
+        #[cfg(calloop_verif)]
+        crate::verif::yield_point(crate::verif::Site::WakeupPre);
         self.notifier.notify().ok();
+        #[cfg(calloop_verif)]
+        crate::verif::yield_point(crate::verif::Site::WakeupPost);
     }
 }
 
